@@ -87,7 +87,7 @@ private theorem c19_visit_self (dst sub : Str) (hsub : pathRel c19root (replaceF
         simp [this]
     · intro _ _ h; cases h
 
-theorem c19_cycle : ∀ (n fuel : Nat), fuel ≤ n → ∀ (dst sub : Str),
+private theorem c19_cycle : ∀ (n fuel : Nat), fuel ≤ n → ∀ (dst sub : Str),
     pathRel c19root (replaceFirst c19self c19ext dst) = some sub → sub ≠ dot → ∀ st : PState,
     walkNode c19fs c19cwd c19o none c19root c19ext dst fuel c19ext c19dir st = (st, .stop .diverged) := by
   intro n
@@ -154,7 +154,7 @@ private theorem c19_visit_l (st : PState) (f : Nat) :
         simp [this]
     · intro _ _ h; cases h
 
-theorem c19_top (fuel : Nat) (st : PState) :
+private theorem c19_top (fuel : Nat) (st : PState) :
     walkNode c19fs c19cwd c19o none c19root c19root c19root fuel c19root c19dir st = (st, .stop .diverged) := by
   unfold c19dir
   cases fuel with
@@ -175,7 +175,7 @@ theorem c19_top (fuel : Nat) (st : PState) :
         rw [walkNode]
         · simp [c19_visit_l]
         · intro _ _ h; cases h
-theorem c19_pack : pack c19fs c19cwd c19o c19root = (pkEmpty, .diverged) := by
+private theorem c19_pack : pack c19fs c19cwd c19o c19root = (pkEmpty, .diverged) := by
   have h1 : pkRootInfo c19fs c19cwd c19root = .ok c19dir := by decide
   have h2 : pkRoot c19fs c19cwd c19root = c19root := by decide
   have h3 : pkRules c19fs c19cwd c19o c19root = none := by simp [pkRules, c19o]
